@@ -124,6 +124,27 @@ Theorem normalize_total_partial : forall rs p i B,
 Proof. exact normalize_total_partial_lemma. Qed.
 Print Assumptions normalize_total_partial.
 
+(* -- -diff_base ... -proto, reopened: the saved profile is the report's profile with its labels,
+      so the reopened report has the same total (the base total) and the same entries.  The model's
+      -proto step is the identity (serialization is C01); what ties it to the code is the
+      correspondence stream that saves through the driver's real "proto" command and reopens -- *)
+Theorem diff_base_roundtrip : forall p i,
+  print_proto (report_new p i) = p /\ snd (report_new (print_proto (report_new p i)) i) = snd (report_new p i).
+Proof. exact proto_roundtrip_lemma. Qed.
+Print Assumptions diff_base_roundtrip.
+
+(* why the label has to survive: dropping it before saving changes the percentage base
+   (base -40 labelled, source 60: total 40 with the label, 100 without) *)
+Definition roundtrip_witness : profile :=
+  set_samples empty_profile
+    [{| s_loc := [1]; s_val := [60]; s_label := []; s_numlabel := []; s_numunit := [] |};
+     {| s_loc := [1]; s_val := [-40]; s_label := [(base_key, ["true"%string])]; s_numlabel := []; s_numunit := [] |}].
+Theorem roundtrip_needs_label :
+  compute_total 0 (p_sample roundtrip_witness) = 40 /\
+  compute_total 0 (p_sample (remove_base_label roundtrip_witness)) = 100.
+Proof. vm_compute. split; reflexivity. Qed.
+Print Assumptions roundtrip_needs_label.
+
 (* -- statements kept in full but NOT proved here (fallback ladder of DESIGN 5.22): each is covered on
       every run by the correspondence of the executable model with the implementation and by the
       evaluated specification checker S_Combine.spec_ok; the theorems above are their proved parts -- *)
